@@ -73,6 +73,63 @@ def c10():
         (0, "d", "v.Get().fm", 0, 9, [sel(files, "aY", "fm : int4", 0, 0, 2)], {"forward", "dotted", "right"}, "member of the result of an override declared further down, reached through a descendant"),
         (0, "d", "v.Get().fm", 0, 3, [sel(files, "aA", "func Get", 0, 5), sel(files, "aG", "func Get", 0, 5)], {"dotted", "right", "overridden"}, "the override itself and the overridden declaration"),
     ]))
+    # a third face: the ancestor's declaration returns a DESCENDANT of the right class -> that class' overriding
+    # declaration of the member is listed in front of the right one
+    A = "class aA(aG)\n\nproc First\n   self.Get().fm\nendproc\n\nfunc Get return aX override\nendfunc\n"
+    G = "class aG\nfunc Get return aY\nendfunc\n"
+    X = "class aX\nfm : int4\n"
+    Y = "class aY(aX)\nFM : int4 override\n"
+    files = [("aA", A), ("aG", G), ("aX", X), ("aY", Y)]
+    cases.append(case("finding-forward-spurious", files, [
+        (0, "d", "self.Get().fm", 0, 11, [sel(files, "aX", "fm : int4", 0, 0, 2)], {"forward", "dotted", "right"},
+         "member after the call of an override declared further down whose ancestor declaration returns a descendant of the right class"),
+    ]))
+    # --- shapes (property holds; each is the input a plausible source change needs to show):
+    # a uses list naming entities without a file, in front of / between / behind the entities that declare what is referenced
+    A = ("class aA\n\nuses wNoLib, aM, aNone, aB, zLast\n\nfa : tRec\n\nproc First(p : aB)\n   var v : tRec\n   cMod = cMod\n   aM\n   wNoLib\n   zLast.fb\nendproc\n")
+    M = "module aM\nconst cMod = 1\ntype tRec : aB\n"
+    B = "class aB\nfb : int4\n"
+    files = [("aA", A), ("aM", M), ("aB", B)]
+    cases.append(case("shape-uses-names-missing-entities", files, [
+        (0, "d", "uses wNoLib", 0, 6, [], {"uses-entry", "ghost"}, "uses entry naming no file"),
+        (0, "d", "aM, aNone", 0, 1, [sel(files, "aM", "module aM", 0, 7)], {"uses-entry"}, "uses entry behind a missing one"),
+        (0, "d", "aNone, aB", 0, 8, [sel(files, "aB", "class aB", 0, 6)], {"uses-entry"}, "uses entry behind two missing ones"),
+        (0, "d", "fa : tRec", 0, 6, [sel(files, "aM", "type tRec", 0, 5)], {"typeref", "via-uses", "uses-after-ghost"}, "type of a used module listed behind a missing entity (field)"),
+        (0, "d", "var v : tRec", 0, 9, [sel(files, "aM", "type tRec", 0, 5)], {"typeref", "via-uses", "uses-after-ghost"}, "the same (local)"),
+        (0, "d", "First(p : aB)", 0, 11, [sel(files, "aB", "class aB", 0, 6)], {"typeref", "via-uses", "uses-after-ghost"}, "used class behind two missing entities (parameter type)"),
+        (0, "d", "   cMod = cMod", 0, 4, [sel(files, "aM", "const cMod", 0, 6)], {"plain", "uses-const", "uses-after-ghost"}, "constant of a used module listed behind a missing entity"),
+        (0, "d", "   aM\n", 0, 3, [sel(files, "aM", "module aM", 0, 7)], {"plain", "module", "uses-after-ghost"}, "the used module itself"),
+        (0, "d", "   wNoLib\n", 0, 4, [], {"plain", "unresolvable"}, "the missing entity's name as an identifier"),
+        (0, "d", "zLast.fb", 0, 6, [], {"dotted", "right", "unknown-operand"}, "member of a missing entity"),
+    ]))
+    # methods without a body: their parameters are visible nowhere else
+    A = ("class aA\n\nuses aM\n\nfa : int4\n\nproc Beep(pFreq : int4, pDur : aB) external 'lib.Beep'\n\nfunc Handle(pIdx : int4) return aB forward\n\n"
+         "proc Run(pArg : int4)\n   pFreq = pIdx\n   pDur.fb\n   pMod\n   Handle(pArg).fb\n   pArg\nendproc\n")
+    M = "module aM\nproc ModExt(pMod : int4) external 'lib.X'\n"
+    files = [("aA", A), ("aM", M), ("aB", B)]
+    cases.append(case("shape-bodyless-method-parameters", files, [
+        (0, "d", "   pFreq = pIdx", 0, 4, [], {"plain", "bodyless-param", "unresolvable"}, "parameter of an external procedure, named in another method"),
+        (0, "d", "   pFreq = pIdx", 0, 12, [], {"plain", "bodyless-param", "unresolvable"}, "parameter of a forward function, named in another method"),
+        (0, "d", "   pDur.fb", 0, 4, [], {"left", "bodyless-param", "unresolvable"}, "the same as left operand"),
+        (0, "d", "   pDur.fb", 0, 8, [], {"dotted", "right", "unknown-operand"}, "its member"),
+        (0, "d", "   pMod\n", 0, 4, [], {"plain", "bodyless-param", "unresolvable"}, "parameter of an external procedure of a used module"),
+        (0, "d", "Handle(pArg).fb", 0, 2, [sel(files, "aA", "func Handle", 0, 5)], {"left", "call", "member"}, "the forward function itself"),
+        (0, "d", "Handle(pArg).fb", 0, 13, [sel(files, "aB", "fb : int4", 0, 0, 2)], {"dotted", "right"}, "member of its result"),
+        (0, "d", "pDur : aB) external", 0, 8, [], {"typeref", "unresolvable"}, "parameter type of a body-less method (aB is neither ancestor nor used)"),
+        (0, "d", "   pArg\n", 0, 4, [sel(files, "aA", "Run(pArg", 0, 4, 4)], {"plain", "local"}, "own parameter"),
+    ]))
+    # a dangling dot followed by a line that starts with an identifier: `v.⏎name` IS `v.name`
+    A = ("class aA\n\nfa : aB\n\nproc First(count : int4)\n   var v : aB\n   v.\n   WriteLn(count)\n   v.\n   count = 1\n   v.\n   fb = count\n   v.\n\n   BProc()\nendproc\n")
+    B2 = "class aB\nfb : int4\nproc BProc\nendproc\n"
+    files = [("aA", A), ("aB", B2)]
+    cases.append(case("shape-dangling-dot-continued", files, [
+        (0, "d", "   WriteLn(count)", 0, 4, [], {"dotted", "right", "continued", "no-such-member"}, "first identifier of the line after `v.`: member WriteLn of aB"),
+        (0, "d", "   WriteLn(count)", 0, 12, [sel(files, "aA", "First(count", 0, 6, 5)], {"plain", "local"}, "argument of that call"),
+        (0, "d", "   count = 1", 0, 4, [], {"dotted", "right", "continued", "no-such-member"}, "member count of aB (the parameter is not asked)"),
+        (0, "d", "   fb = count", 0, 3, [sel(files, "aB", "fb : int4", 0, 0, 2)], {"dotted", "right", "continued"}, "member fb of aB"),
+        (0, "d", "   fb = count", 0, 9, [sel(files, "aA", "First(count", 0, 6, 5)], {"plain", "local"}, "right-hand side of the continued line"),
+        (0, "d", "   BProc()", 0, 4, [sel(files, "aB", "proc BProc", 0, 5)], {"dotted", "right", "continued", "call"}, "member BProc of aB, an empty line in between"),
+    ]))
     # --- finding: a field / procedure of a used entity answers for a plain identifier
     A = ("class aA\n\nuses aM\n\nproc First\n   ModProc\n   cModConst\n   fModField = 1\nendproc\n")
     M = "module aM\nconst cModConst = 1\nfModField : int4\nproc ModProc\nendproc\n"
@@ -144,6 +201,47 @@ def c11():
     files = [("aA", A), ("aG", G), ("aD", D), ("aX", X), ("aY", Y)]
     cases.append(case("finding-forward-through-descendant", files, [
         (0, "c", "v.Get().\n", 0, 8, ["fy"], {"forward", "dot", "dangling"}, "after the call of an override declared further down, reached through a descendant"),
+    ]))
+    # same names, an ancestor's spelling
+    X = "class aX\nfm : int4\n"
+    Y = "class aY(aX)\nFM : int4 override\n"
+    files = [("aA", A), ("aG", G), ("aD", D), ("aX", X), ("aY", Y)]
+    cases.append(case("finding-forward-spelling", files, [
+        (0, "c", "v.Get().\n", 0, 8, ["FM"], {"forward", "dot", "dangling"},
+         "after the call of an override declared further down whose ancestor declaration returns an ancestor of the right class: same names, the ancestor's spelling"),
+    ]))
+    # --- shapes (property holds; each is the input a plausible source change needs to show):
+    # a dangling dot followed by every kind of line
+    A = ("class aA\n\nconst cOwn = 1\nfa : aB\n\nproc First(count : int4)\n   var v : aB\n   v.\n   WriteLn(count)\n   v.\n   count = 1\n   fa.\n   v.fb = 2\n"
+         "   v.\n\n   BProc()\n   v.\n   if count = 1\n      v.\n   endif\n   v.\n   exit\n   v.\nendproc\n")
+    files = [("aA", A), ("aB", B)]
+    mem, plain = ["BProc", "fb"], ["cOwn", "count", "v"]
+    cases.append(case("shape-dangling-dot-followed-by", files, [
+        (0, "c", "v.\n   WriteLn", 0, 2, mem, {"dot", "dangling"}, "right behind the dot; next line: a call"),
+        (0, "c", "   WriteLn(count)", 0, 3, mem, {"dot", "dangling", "continued-start"}, "start of that line = start of the member name after the dot"),
+        (0, "c", "v.\n   count", 0, 2, mem, {"dot", "dangling"}, "next line: an assignment"),
+        (0, "c", "fa.\n   v.fb", 0, 3, mem, {"dot", "dangling"}, "next line: a chain"),
+        (0, "c", "   v.fb = 2", 0, 5, [], {"dot", "complete", "continued", "unknown-operand"}, "`fa.⏎v.` is `fa.v.`: aB has no member v"),
+        (0, "c", "v.\n\n   BProc", 0, 2, mem, {"dot", "dangling"}, "next line empty, then a call"),
+        (0, "c", "\n   BProc()", 0, 0, mem, {"dot", "dangling", "continued-gap"}, "on the empty line between the dot and the name"),
+        (0, "c", "v.\n   if", 0, 2, mem, {"dot", "dangling"}, "next line: a keyword statement"),
+        (0, "c", "v.\n   endif", 0, 2, mem, {"dot", "dangling"}, "next line: the end of a block"),
+        (0, "c", "v.\n   exit", 0, 2, mem, {"dot", "dangling"}, "next line: exit"),
+        (0, "c", "v.\nendproc", 0, 2, mem, {"dot", "dangling"}, "next line: the end of the method"),
+        (0, "c", "   v.\n   WriteLn", 0, 3, plain, {"stmt-start"}, "statement start of a dangling line"),
+    ]))
+    # methods without a body open a scope of their own: their parameters are proposed nowhere else
+    A = ("class aA(aP)\n\nconst cOwn = 1\nfa : aB\n\nproc Beep(pFreq : int4, pDur : int4) external 'lib.Beep'\n\nfunc Handle(pIdx : int4) return aB forward\n\n"
+         "proc Run(pArg : int4)\n   var v : aB\n   pArg = 1\n   \n   self.\n   exit\n   Handle(1).\nendproc\n")
+    P2 = "class aP\nconst cP = 2\nproc PExt(pPar : int4) external 'lib.P'\n"
+    M = "module aM\nconst cMod = 3\nproc ModExt(pMod : int4) external 'lib.X'\nproc ModRun\n   \nendproc\n"
+    files = [("aA", A), ("aP", P2), ("aB", B), ("aM", M)]
+    cases.append(case("shape-bodyless-method-parameters", files, [
+        (0, "c", "   pArg = 1", 0, 3, ["cOwn", "cP", "pArg", "v"], {"stmt-start"}, "statement start in a method that follows an external procedure and a forward function"),
+        (0, "c", "   \n   self.", 0, 3, ["cOwn", "cP", "pArg", "v"], {"stmt-start"}, "empty line there"),
+        (0, "c", "self.\n", 0, 5, ["Beep", "Handle", "PExt", "Run", "fa"], {"dot", "dangling", "self"}, "members of the class: the body-less methods are members, their parameters are not"),
+        (0, "c", "Handle(1).\n", 0, 10, ["BProc", "fb"], {"dot", "dangling", "call"}, "result of the forward function"),
+        (3, "c", "   \nendproc", 0, 3, ["cMod"], {"stmt-start"}, "statement start in a module procedure that follows an external one"),
     ]))
     A = ("class aA\n\nproc First\n   var v : aB\n   v.\n   if v = v\n   endif\n   \nendproc\n")
     files = [("aA", A), ("aB", B)]
